@@ -1,7 +1,55 @@
 /-
   C06 — Announced encoded length equals octets written, for every encoder composition.
 
-  (header completed below)
+  Model: `Enc` (Model/Encode.lean), the tree of `Values` combinators, with the two independently
+  written methods `Enc.encodedLen` (`Values::encoded_len`) and `Enc.write` (`Values::write_encoded`).
+  Everything below is for ALL `e : Enc` (every nesting depth; mutual structural induction over
+  `Enc` / `List Enc`) and all three modes.  `lenR r` is "the length `r` announces": the number of
+  octets if `r` is a success, the same error otherwise.
+
+  Proved
+  * `write_len` / `writeList_len` (main theorem):  `lenR (e.write mode) = e.encodedLen mode`.
+    One equation that says: both methods succeed or both fail; on success the announced length is
+    exactly the number of octets written; on failure both report the same panic.
+    Requested forms: `len_eq_write`, `write_eq_len`, `fail_iff` (+ `lenList_eq_write`,
+    `writeList_eq_len`, `failList_iff`).
+    Hypothesis `IntsOK e` (decidable): every `.int ty v` leaf satisfies
+    `encIntLen ty v = (encInt ty v).length`.  It is discharged here:
+    `intOK_u8`, `intOK_i8` (all `v`), and `intOK_of_inRange` / `IntsOK_of_inRange` for ALL ten
+    builtin types and every value in the range of the type (`encUnsigned_len`, `encSigned_len`),
+    giving the hypothesis-free form `announced_eq_written` (hypothesis: integer leaves hold values
+    of their Rust type, `IntsInRange`).  The range hypothesis is necessary in the model
+    (`.int .i16 70000` makes the two sizes differ; such a value does not exist in Rust).
+    Also `os_len`: `OctetString::len` is the number of octets its iterator yields (DER encoder).
+  * Structure of the output (`tlvR tag c content` = identifier octets `tag.write c`, then the
+    reference MINIMAL definite length octets `Spec.lenOctets content.length` (C13), then `content`;
+    panic "excessive length" iff `content.length ≥ 2^32`, `length_write_spec`):
+      `write_prim`              primitive: `tlvR tag false pc.write`
+      `write_cons_ber/_der`     constructed, BER/DER: `inner.write >>= tlvR tag true`
+                                (the enclosing definite length is the number of octets the inner
+                                 encoder writes — this is where the announced length is used)
+      `write_cons_cer`          constructed, CER: identifier, 0x80, inner octets, 0x00 0x00
+      `write_seq`               tuples/Vec/slices/iterators: concatenation, in order, of the items
+      `write_optNone/_optSome/_choice/_nothing`, `write_captured`,
+      `write_octetString_ber_prim/_ber_cons/_der`, `write_octetSlice`, `write_bitSlice`,
+      `write_wrapped` (OCTET STRING around the inner value encoded in its own mode).
+  * Panics the model documents as caller misuse, on which the two methods also agree:
+    `cer_unimplemented` (string encoders in CER), `captured_incompatible`, `excessive_both`.
+  * Relation to the reference encoder `Spec.encode` (Spec/Encode.lean), for well-formed trees `WF e`
+    (decidable: tags write the reference identifier octets of their class and number — true for every
+    `Tag::new` tag, `tagOK_new`; integer leaves as above and `encInt ty v = minimalTC v`):
+      `write_ok_spec`    `e.write mode = .ok bs → Spec.encode mode e = some bs`
+      `spec_some_write`  `Spec.encode mode e = some bs → bs.length < 2^32 → e.write mode = .ok bs`
+    so below the 2^32 size limit the writer IS the reference encoder, and where the reference
+    says "unimplemented / caller error" (`none`) the writer fails.
+
+  NOT covered
+  * `encInt ty v = minimalTC v` (integer content is the minimal two's complement form) is C14's
+    property; here it is an explicit decidable hypothesis inside `WF` (only for the `Spec.encode`
+    relation; the length theorems do not need it).
+  * Tags not made by `Tag::new` (arbitrary four stored octets): the length theorems hold for them too
+    (`tag_write_len` is for all tags), the identifier-octet correctness is C12's and enters via `tagOK`.
+  * The `Write` target never fails in the model (`io::Error` of the underlying writer is not modelled).
 -/
 import Bcder.Model.Encode
 import Bcder.Spec.Encode
@@ -754,6 +802,300 @@ theorem intOK_u8 (v : Int) : PC.intOK (.int .u8 v) = true := by
 theorem intOK_i8 (v : Int) : PC.intOK (.int .i8 v) = true := by
   simp only [PC.intOK, encIntLen, encInt, encI8, beq_iff_eq]; rfl
 
+/-! ### the fixed-width integer encoders announce what they write (values in range) -/
+
+theorem toBE_succ (w v : Nat) : toBE (w + 1) v = toBE w (v / 256) ++ [UInt8.ofNat (v % 256)] := rfl
+
+theorem toBE_zero (w : Nat) : ∀ a ∈ toBE w 0, (a == 0) = true := by
+  induction w with
+  | zero => intro a h; cases h
+  | succ w ih =>
+    intro a h
+    rw [toBE_succ] at h
+    simp only [Nat.zero_div, Nat.zero_mod, List.mem_append, List.mem_singleton] at h
+    rcases h with h | h
+    · exact ih a h
+    · subst h; rfl
+
+/-- the significant octets of the `w`-octet big-endian form of `v`, where `256^d ≤ v < 256^(d+1)`:
+    `d + 1` octets, the first being `v / 256^d` -/
+theorem dropWhile_toBE (w : Nat) : ∀ (v d : Nat), v < 256 ^ w → 256 ^ d ≤ v → v < 256 ^ (d + 1) →
+    ∃ b rest, (toBE w v).dropWhile (· == 0) = b :: rest ∧ rest.length = d ∧ b.toNat = v / 256 ^ d := by
+  induction w with
+  | zero => intro v d h1 h2 h3; have : 0 < 256 ^ d := Nat.pow_pos (by decide); simp at h1; omega
+  | succ w ih =>
+    intro v d h1 h2 h3
+    rw [toBE_succ]
+    cases d with
+    | zero =>
+      simp at h2 h3
+      have hz : v / 256 = 0 := by omega
+      rw [hz, List.dropWhile_append_of_pos (toBE_zero w)]
+      refine ⟨UInt8.ofNat (v % 256), [], ?_, rfl, ?_⟩
+      · rw [List.dropWhile_cons_of_neg]
+        rw [byte_beq_iff, toNat_ofNat]; simp; omega
+      · rw [toNat_ofNat]; simp; omega
+    | succ d =>
+      have p1 : v / 256 < 256 ^ w := by
+        rw [Nat.div_lt_iff_lt_mul (by decide)]; rw [Nat.pow_succ] at h1; exact h1
+      have p2 : 256 ^ d ≤ v / 256 := by
+        rw [Nat.le_div_iff_mul_le (by decide)]; rw [Nat.pow_succ] at h2; exact h2
+      have p3 : v / 256 < 256 ^ (d + 1) := by
+        rw [Nat.div_lt_iff_lt_mul (by decide)]; rw [Nat.pow_succ] at h3; exact h3
+      obtain ⟨b, rest, e1, e2, e3⟩ := ih (v / 256) d p1 p2 p3
+      refine ⟨b, rest ++ [UInt8.ofNat (v % 256)], ?_, ?_, ?_⟩
+      · rw [List.dropWhile_append, e1]; rfl
+      · simp [e2]
+      · rw [e3, Nat.div_div_eq_div_mul, Nat.pow_succ, Nat.mul_comm]
+
+
+theorem pow256 (d : Nat) : 256 ^ d = 2 ^ (8 * d) := by
+  rw [Nat.pow_mul]
+
+theorem log2_digits (v : Nat) (hv : v ≠ 0) :
+    256 ^ (v.log2 / 8) ≤ v ∧ v < 256 ^ (v.log2 / 8 + 1) ∧
+      (128 ≤ v / 256 ^ (v.log2 / 8) ↔ v.log2 % 8 = 7) := by
+  have a1 : 2 ^ v.log2 ≤ v := (Nat.le_log2 hv).mp (Nat.le_refl _)
+  have a2 : v < 2 ^ (v.log2 + 1) := (Nat.log2_lt hv).mp (Nat.lt_succ_self _)
+  rw [pow256, pow256]
+  refine ⟨?_, ?_, ?_⟩
+  · exact Nat.le_trans (Nat.pow_le_pow_right (by decide) (by omega)) a1
+  · exact Nat.lt_of_lt_of_le a2 (Nat.pow_le_pow_right (by decide) (by omega))
+  · rw [Nat.le_div_iff_mul_le (Nat.pow_pos (by decide))]
+    have : 128 * 2 ^ (8 * (v.log2 / 8)) = 2 ^ (8 * (v.log2 / 8) + 7) := by
+      rw [Nat.pow_add, Nat.mul_comm]
+    rw [this, ← Nat.le_log2 hv]
+    omega
+
+/-- `unsigned_content!` for a `w`-octet type, every value of the type -/
+theorem encUnsigned_len (w v : Nat) (h : v < 256 ^ w) :
+    encUnsignedLen w v = (encUnsigned w v).length := by
+  unfold encUnsignedLen encUnsigned
+  by_cases h0 : v = 0
+  · simp [h0]
+  · have hb : (v == 0) = false := by simp [h0]
+    simp only [hb, Bool.false_eq_true, if_false]
+    obtain ⟨l1, l2, l3⟩ := log2_digits v h0
+    obtain ⟨b, rest, e1, e2, e3⟩ := dropWhile_toBE w v (v.log2 / 8) h l1 l2
+    rw [e1]
+    simp only [byte_and80_ne0, e3, leadingZeros, hb, Bool.false_eq_true, if_false,
+      Nat.shiftRight_eq_div_pow]
+    have hw : v.log2 + 1 ≤ 8 * w := by
+      have : v.log2 < 8 * w := by rw [Nat.log2_lt h0, ← pow256]; exact h
+      omega
+    by_cases h7 : v.log2 % 8 = 7
+    · have c : 128 ≤ v / 256 ^ (v.log2 / 8) := l3.mpr h7
+      have z : (8 * w - (v.log2 + 1)) % 8 = 0 := by omega
+      simp [c, z, e2]; omega
+    · have c : ¬ 128 ≤ v / 256 ^ (v.log2 / 8) := fun x => h7 (l3.mp x)
+      have z : ¬ (8 * w - (v.log2 + 1)) % 8 = 0 := by omega
+      simp [c, z, e2]; omega
+
+
+/-- the common size formula of `signed_content!` for the magnitude `m` (`v` itself, or `-v-1`) -/
+theorem signedLen_core (w m : Nat) (h0 : m ≠ 0) (h : m < 2 ^ (8 * w - 1)) :
+    (if leadingZeros w m &&& 7 == 0 then w + 1 - (leadingZeros w m >>> 3) else w - (leadingZeros w m >>> 3))
+      = m.log2 / 8 + 1 + (if m.log2 % 8 = 7 then 1 else 0) := by
+  have hb : (m == 0) = false := by simp [h0]
+  have hw : m.log2 + 2 ≤ 8 * w := by
+    have : m.log2 < 8 * w - 1 := by rw [Nat.log2_lt h0]; exact h
+    omega
+  have h7 : ∀ z : Nat, z &&& 7 = z % 8 := fun z => Nat.and_two_pow_sub_one_eq_mod z 3
+  simp only [leadingZeros, hb, Bool.false_eq_true, if_false, Nat.shiftRight_eq_div_pow, h7]
+  by_cases c : m.log2 % 8 = 7
+  · have z : (8 * w - (m.log2 + 1)) % 8 = 0 := by omega
+    simp [c, z]; omega
+  · have z : ¬ (8 * w - (m.log2 + 1)) % 8 = 0 := by omega
+    simp [c, z]; omega
+
+/-- one's complement of an octet -/
+def cpl (x : UInt8) : UInt8 := UInt8.ofNat (255 - x.toNat)
+
+theorem cpl_toNat (x : UInt8) : (cpl x).toNat = 255 - x.toNat := by
+  have := byte_lt_256 x
+  rw [cpl, toNat_ofNat]; omega
+
+theorem toBE_cpl (w : Nat) : ∀ m, m < 256 ^ w → toBE w (256 ^ w - 1 - m) = (toBE w m).map cpl := by
+  induction w with
+  | zero => intro m h; rfl
+  | succ w ih =>
+    intro m h
+    rw [Nat.pow_succ] at h
+    have hq : m / 256 < 256 ^ w := by rw [Nat.div_lt_iff_lt_mul (by decide)]; exact h
+    have e1 : (256 ^ (w + 1) - 1 - m) / 256 = 256 ^ w - 1 - m / 256 := by
+      rw [Nat.pow_succ]; omega
+    have e2 : (256 ^ (w + 1) - 1 - m) % 256 = 255 - m % 256 := by
+      rw [Nat.pow_succ]; omega
+    rw [toBE_succ, toBE_succ, e1, e2, ih _ hq, List.map_append]
+    congr 1
+    simp only [List.map_cons, List.map_nil, cpl, toNat_ofNat]
+    have : m % 256 % 256 = m % 256 := by omega
+    rw [this]
+
+theorem cpl_ff : ((· == (0xFF : UInt8)) ∘ cpl) = (· == (0 : UInt8)) := by
+  funext x
+  have := byte_lt_256 x
+  simp only [Function.comp, byte_beq_iff, cpl_toNat]
+  have a : (0xFF : UInt8).toNat = 255 := rfl
+  have b : (0 : UInt8).toNat = 0 := rfl
+  rw [a, b]
+  by_cases hx : x.toNat = 0
+  · simp [hx]
+  · have : ¬ 255 - x.toNat = 255 := by omega
+    simp [hx, this]
+
+
+theorem int_pow_cast (k : Nat) : (2 : Int) ^ k = ((2 ^ k : Nat) : Int) := by
+  rw [Int.natCast_pow]; rfl
+
+/-- `signed_content!` for a `w`-octet type, every value of the type -/
+theorem encSigned_len (w : Nat) (v : Int) (hw : 1 ≤ w)
+    (hlo : -(2 : Int) ^ (8 * w - 1) ≤ v) (hhi : v < (2 : Int) ^ (8 * w - 1)) :
+    encSignedLen w v = (encSigned w v).length := by
+  have hN : (2 : Int) ^ (8 * w) = ((256 ^ w : Nat) : Int) := by rw [int_pow_cast, pow256]
+  have hNP : 256 ^ w = 2 * 2 ^ (8 * w - 1) := by
+    rw [pow256, show 8 * w = (8 * w - 1) + 1 by omega, Nat.pow_succ, Nat.mul_comm]; simp
+  rw [int_pow_cast] at hlo hhi
+  unfold encSignedLen encSigned
+  by_cases h0 : v = 0
+  · subst h0; rfl
+  · by_cases h1 : v = -1
+    · subst h1; rfl
+    · have c0 : (v == 0) = false := by simp [h0]
+      have c1 : (v == -1) = false := by simp [h1]
+      simp only [c0, c1, Bool.or_self, Bool.false_eq_true, if_false]
+      rw [hN]
+      by_cases hneg : v < 0
+      · simp only [hneg, if_true]
+        have m0 : (-v - 1).toNat ≠ 0 := by omega
+        have mlt : (-v - 1).toNat < 2 ^ (8 * w - 1) := by omega
+        have mltN : (-v - 1).toNat < 256 ^ w := by omega
+        have hmod : (v % ((256 ^ w : Nat) : Int)).toNat = 256 ^ w - 1 - (-v - 1).toNat := by
+          have : v % ((256 ^ w : Nat) : Int) = v + ((256 ^ w : Nat) : Int) := by
+            rw [← Int.add_emod_right v, Int.emod_eq_of_lt (by omega) (by omega)]
+          rw [this]; omega
+        rw [signedLen_core w _ m0 mlt, hmod, toBE_cpl w _ mltN, List.dropWhile_map, cpl_ff]
+        clear hmod
+        generalize (-v - 1).toNat = m at *
+        obtain ⟨l1, l2, l3⟩ := log2_digits _ m0
+        obtain ⟨b, rest, e1, e2, e3⟩ := dropWhile_toBE w _ _ mltN l1 l2
+        rw [e1]
+        simp only [List.map_cons, byte_and80_ne80, cpl_toNat]
+        have hb := byte_lt_256 b
+        by_cases h7 : m.log2 % 8 = 7
+        · have c : 128 ≤ b.toNat := by rw [e3]; exact l3.mpr h7
+          have c' : 255 - b.toNat < 128 := by omega
+          simp [c', h7, e2]
+        · have c : ¬ 128 ≤ b.toNat := by rw [e3]; exact fun x => h7 (l3.mp x)
+          have c' : ¬ 255 - b.toNat < 128 := by omega
+          simp [c', h7, e2]
+      · simp only [hneg, if_false]
+        have m0 : v.toNat ≠ 0 := by omega
+        have mlt : v.toNat < 2 ^ (8 * w - 1) := by omega
+        have mltN : v.toNat < 256 ^ w := by omega
+        have hmod : (v % ((256 ^ w : Nat) : Int)).toNat = v.toNat := by
+          rw [Int.emod_eq_of_lt (by omega) (by omega)]
+        rw [signedLen_core w _ m0 mlt, hmod]
+        obtain ⟨l1, l2, l3⟩ := log2_digits _ m0
+        obtain ⟨b, rest, e1, e2, e3⟩ := dropWhile_toBE w _ _ mltN l1 l2
+        rw [e1]
+        simp only [byte_and80_eq80]
+        by_cases h7 : v.toNat.log2 % 8 = 7
+        · have c : 128 ≤ b.toNat := by rw [e3]; exact l3.mpr h7
+          simp [c, h7, e2]
+        · have c : ¬ 128 ≤ b.toNat := by rw [e3]; exact fun x => h7 (l3.mp x)
+          simp [c, h7, e2]
+
+
+/-- the integer leaf holds a value of its Rust type -/
+def PC.inRange : PC → Bool
+  | .int ty v => Spec.inRange ty.signed ty.width v
+  | _ => true
+
+/-- C06 (integer leaves) — for every builtin integer type and every value of the type, the
+    announced content size is the number of content octets written -/
+theorem intOK_of_inRange (pc : PC) (h : PC.inRange pc = true) : PC.intOK pc = true := by
+  cases pc with
+  | int ty v =>
+    simp only [PC.inRange] at h
+    have hu : ∀ w, 1 ≤ w → inRange false w v = true → encUnsignedLen w v.toNat = (encUnsigned w v.toNat).length := by
+      intro w hw hr
+      simp only [inRange, Bool.false_eq_true, if_false, Bool.and_eq_true, decide_eq_true_eq] at hr
+      apply encUnsigned_len
+      have : (2 : Int) ^ (8 * w) = ((256 ^ w : Nat) : Int) := by rw [int_pow_cast, pow256]
+      rw [this] at hr; omega
+    have hs : ∀ w, 1 ≤ w → inRange true w v = true → encSignedLen w v = (encSigned w v).length := by
+      intro w hw hr
+      simp only [inRange, if_true, Bool.and_eq_true, decide_eq_true_eq] at hr
+      exact encSigned_len w v hw hr.1 hr.2
+    cases ty
+    case u8 => exact intOK_u8 v
+    case i8 => exact intOK_i8 v
+    all_goals
+      simp only [PC.intOK, encIntLen, encInt, IntTy.signed, IntTy.width, beq_iff_eq, if_true,
+        Bool.false_eq_true, if_false]
+      first
+        | exact hs 2 (by decide) h
+        | exact hs 4 (by decide) h
+        | exact hs 8 (by decide) h
+        | exact hs 16 (by decide) h
+        | exact hu 2 (by decide) h
+        | exact hu 4 (by decide) h
+        | exact hu 8 (by decide) h
+        | exact hu 16 (by decide) h
+  | bool b => rfl
+  | null => rfl
+  | octets bs => rfl
+  | integer c => rfl
+  | oid c => rfl
+  | bits u bs => rfl
+
+mutual
+def IntsInRange : Enc → Bool
+  | .prim _ pc => PC.inRange pc
+  | .cons _ inner => IntsInRange inner
+  | .seq _ es => IntsInRangeList es
+  | .optSome e => IntsInRange e
+  | .choice _ _ e => IntsInRange e
+  | .wrapped _ inner => IntsInRange inner
+  | _ => true
+def IntsInRangeList : List Enc → Bool
+  | [] => true
+  | e :: es => IntsInRange e && IntsInRangeList es
+end
+
+mutual
+theorem IntsOK_of_inRange : ∀ (e : Enc), IntsInRange e = true → IntsOK e = true
+  | .prim tag pc, h => by
+    simp only [IntsInRange] at h; simp only [IntsOK]; exact intOK_of_inRange pc h
+  | .cons tag inner, h => by
+    simp only [IntsInRange] at h; simp only [IntsOK]; exact IntsOK_of_inRange inner h
+  | .seq _ es, h => by
+    simp only [IntsInRange] at h; simp only [IntsOK]; exact IntsOKList_of_inRange es h
+  | .optSome e, h => by simp only [IntsInRange] at h; simp only [IntsOK]; exact IntsOK_of_inRange e h
+  | .choice _ _ e, h => by simp only [IntsInRange] at h; simp only [IntsOK]; exact IntsOK_of_inRange e h
+  | .wrapped _ e, h => by simp only [IntsInRange] at h; simp only [IntsOK]; exact IntsOK_of_inRange e h
+  | .octetString _ _, _ => rfl
+  | .octetSlice _ _, _ => rfl
+  | .bitSlice _ _ _, _ => rfl
+  | .optNone, _ => rfl
+  | .nothing, _ => rfl
+  | .captured _ _, _ => rfl
+theorem IntsOKList_of_inRange : ∀ (es : List Enc), IntsInRangeList es = true → IntsOKList es = true
+  | [], _ => rfl
+  | e :: es, h => by
+    simp only [IntsInRangeList, Bool.and_eq_true] at h
+    simp only [IntsOKList, Bool.and_eq_true]
+    exact ⟨IntsOK_of_inRange e h.1, IntsOKList_of_inRange es h.2⟩
+end
+
+/-- C06, hypothesis-free form: for every encoder composition whose integer leaves hold values of
+    their Rust types (which the Rust type system guarantees), in every mode, the announced length
+    is the number of octets written, and the two methods fail together with the same panic -/
+theorem announced_eq_written (mode : Mode) (e : Enc) (h : IntsInRange e = true) :
+    lenR (e.write mode) = e.encodedLen mode :=
+  write_len e mode (IntsOK_of_inRange e h)
+
 /-- the hypothesis is needed: an out-of-range value makes the two methods of the model disagree -/
 example : PC.intOK (.int .i16 70000) = false := by decide
 
@@ -785,6 +1127,7 @@ def sampleStr : Enc :=
     .wrapped .der (sample .der)])
 
 example : WF (sample .der) = true ∧ WF (sample .cer) = true ∧ WF sampleStr = true := by decide
+example : IntsInRange (sample .der) = true ∧ IntsInRange sampleStr = true := by decide
 
 example : (sample .der).write .ber
     = .ok [0x30, 19, 0xa0, 4, 2, 2, 1, 44, 1, 1, 0xff, 0x31, 6, 5, 0, 2, 2, 0, 200, 5, 0]
